@@ -8,7 +8,7 @@
                     when Close returned nil). *)
 From Coq Require Import ZArith List Bool.
 From Hts Require Import Base.Prim Base.WrList Generated Model.Bgzf Model.Writer Model.WriterConc
-  Proofs.Bgzf Proofs.Writer Proofs.WriterConc Proofs.WriterThms.
+  Proofs.Bgzf Proofs.Writer Proofs.WriterConc Proofs.WriterThms Proofs.WrSkel.
 Import ListNotations.
 Open Scope Z_scope.
 
